@@ -63,6 +63,16 @@ class ProofInj:
     nth: int
     text: str
     src: str
+    raw: bool = False
+
+
+@dataclass
+class ClosureSpec:
+    ordinal: int
+    header: str
+    requires: List[Clause] = field(default_factory=list)
+    ensures: List[Clause] = field(default_factory=list)
+    src: str = ''
 
 
 @dataclass
@@ -89,6 +99,7 @@ class FnContract:
     loops: Dict[int, LoopSpec] = field(default_factory=dict)
     proofs: List[ProofInj] = field(default_factory=list)
     outlines: List[Outline] = field(default_factory=list)
+    closures: Dict[int, ClosureSpec] = field(default_factory=dict)
 
     def matches(self, path: str) -> bool:
         base = path
@@ -244,13 +255,17 @@ class ContractSet:
                 continue
             w = s.split()
             if s in CLAUSE_KW:
-                tgt = cur_loop if (cur_loop is not None and s != 'requires') else fc
+                tgt = cur_loop if (cur_loop is not None and (s != 'requires' or isinstance(cur_loop, ClosureSpec))) else fc
                 if s in ('invariant', 'invariant_except_break') and cur_loop is None:
                     raise ContractError('%s: invariant outside loop' % src)
                 cur_list = getattr(tgt, s)
                 continue
-            if s == 'end loop':
+            if s in ('end loop', 'end closure'):
                 cur_loop = None; cur_list = None; continue
+            m = re.match(r'^closure\s+(\d+)\s+(\|.*)$', s)
+            if m:
+                cur_loop = fc.closures.setdefault(int(m.group(1)), ClosureSpec(int(m.group(1)), m.group(2), src=src))
+                cur_list = None; continue
             if w[0] == 'ret' and len(w) == 2:
                 fc.ret = w[1]; cur_list = None; continue
             if w[0] == 'attr':
@@ -268,11 +283,11 @@ class ContractSet:
             if s in ('body-start', 'body-end') and cur_loop is not None:
                 txt, j = self._take_block(sect, j, src)
                 getattr(cur_loop, s.replace('-', '_')).append((txt, src)); cur_list = None; continue
-            m = re.match(r'^proof\s+(body-start|fn-end|before|after)(?:\s+"((?:[^"\\]|\\.)*)")?(?:\s+#(\d+))?$', s)
+            m = re.match(r'^(?:proof|ghost)\s+(body-start|fn-end|before|after)(?:\s+"((?:[^"\\]|\\.)*)")?(?:\s+#(\d+))?$', s)
             if m:
                 txt, j = self._take_block(sect, j, src)
                 anchor = (m.group(2) or '').replace('\\"', '"')
-                fc.proofs.append(ProofInj(m.group(1), anchor, int(m.group(3) or 1), txt, src))
+                fc.proofs.append(ProofInj(m.group(1), anchor, int(m.group(3) or 1), txt, src, raw=s.startswith('ghost')))
                 cur_list = None; continue
             m = re.match(r'^outline\s+"((?:[^"\\]|\\.)*)"\s+"((?:[^"\\]|\\.)*)"(?:\s+sha256\s+(\w+))?$', s)
             if m:
